@@ -201,7 +201,7 @@ def run_native(contract, reg, args: dict, check_pre=True) -> NativeOutcome:
             oldvals[lab] = cl.pre(ns)
         except Exception:
             oldvals[lab] = None
-    fn = resolve_callable(contract.file, contract.qualname)
+    fn = resolve_callable(contract.file, contract.srcname)
     try:
         res = fn(**args)
         if hasattr(res, "__next__") and not isinstance(res, (list, tuple)):
